@@ -175,6 +175,7 @@ class OpaqueStr:
 
 # --------------------------------------------------------------------------- containers
 _list_ids = itertools.count()
+EPOCH = [0]  # containers remember the phase they were created in (purity checks)
 
 
 class ListObj:
@@ -183,6 +184,7 @@ class ListObj:
     def __init__(self, items: Optional[List[Any]] = None):
         self.items = list(items or [])
         self.lid = next(_list_ids)
+        self.epoch = EPOCH[0]
 
     def __repr__(self):
         return f"List{self.items}"
@@ -191,6 +193,7 @@ class ListObj:
 class DictObj:
     def __init__(self, items: Optional[Dict[Any, Any]] = None):
         self.items = dict(items or {})
+        self.epoch = EPOCH[0]
 
     def __repr__(self):
         return f"Dict{self.items}"
@@ -199,6 +202,7 @@ class DictObj:
 class SetObj:
     def __init__(self, items=None):
         self.items = list(items or [])
+        self.epoch = EPOCH[0]
 
 
 class SymList:
